@@ -53,4 +53,7 @@ def cases(seed=0, n=6):
         out.append({'id': f'linspace{k}', 'fn': 'np_linspace', 'a': a, 'b': b, 'n': n})
     for k, (mask, n) in enumerate((([True, False, True], 4), ([False, False], 7), ([True], 0))):
         out.append({'id': f'boolarith{k}', 'fn': 'np_bool_arith', 'mask': mask, 'n': n})
+    for k, (cond, x, y) in enumerate((([True, False, True], [1.5, 2.5, 3.5], -1.0), ([[True, False], [False, True]], [[1, 2], [3, 4]], [10, 20]), ([False, True], [1, 2], 0.5),
+                                      ([True, False], 7, [1, 2]))):
+        out.append({'id': f'where{k}', 'fn': 'np_where', 'cond': cond, 'x': x, 'y': y})
     return out
